@@ -85,6 +85,7 @@ class CancelOracle(Monitor):
                 w.violate("C12.b_extra_pdus", f"{[x.kind for x in rec.emitted]}", "")
         else:
             w.probe(f"C12.dst_cancel_at:{pre.step}")
+            self.cancel_seen = True
             self.dst_cancel_pending = True
             self.must_finish = [f"cancel request at {pre.step}", 0]
             self.dst_fin_pending = c.mode == ACK or c.closure
@@ -114,6 +115,7 @@ class CancelOracle(Monitor):
             and rec.pre.step not in ("WAITING_FOR_FINISHED_ACK", "SENDING_FINISHED_PDU")
         ):
             w.probe(f"C12.eof_cancel_at:{rec.pre.step}")
+            self.cancel_seen = True
             self.eof_cancel_pending = (rec.inb_info[1], rec.pre.step)
             if self.must_finish is None:
                 self.must_finish = [f"EOF (cancel) at {rec.pre.step}", -1]
@@ -156,6 +158,15 @@ class CancelOracle(Monitor):
                     elif got is None:
                         w.probe("C12.e_deleted")
         self.complete_before = (not c.metadata_only) and w.dst_bytes() == w.src_bytes
+        # (e) also without the Transaction-Finished indication (it may be switched off): the cancelled transaction is over when
+        # the Finished (cancel) PDU goes out or the handler turns idle
+        if not fin_inds and not (c.ind_b & 8) and not self.e_judged and (
+            any(e.info[1] != 0 for e in fins) or (rec.pre.busy and rec.post.state == "IDLE" and (self.cancel_seen or self.dst_cancel_pending))
+        ):
+            self.e_judged = True
+            got = w.dst_bytes()
+            if c.dispo and not c.metadata_only and self.md_accepted and got is not None and got != w.src_bytes:
+                w.violate("C12.e_incomplete_file_kept", f"(no indication configured) step={rec.pre.step}->{rec.post.step}", f"len={len(got)} want={len(w.src_bytes)}")
         if not c.dispo and not c.metadata_only and self.md_accepted and w.dst_bytes() is None:
             w.violate("C12.e_deleted_without_disposition", f"step={rec.pre.step}->{rec.post.step}", "")
         if rec.inb_kind == "MD" and any(i[0] == "metadata_recv" for i in rec.inds) and w.dst_bytes() is not None:
@@ -179,6 +190,8 @@ class CancelOracle(Monitor):
     md_accepted = False
     complete_before = False
     success_reported = False
+    e_judged = False
+    cancel_seen = False
 
     def on_end(self, w) -> None:
         pass
